@@ -10,7 +10,8 @@ VARIABLES tid, l, verdict, hist
 Init == tid \in 1..Len(Traces) /\ l = 1 /\ verdict = "ok" /\ hist = <<>>
 Next == /\ verdict = "ok" /\ l <= Len(Traces[tid])
         /\ LET e == Traces[tid][l]
-               h == Append(hist, [src |-> e.src, items |-> e.items])
+               \* a tracker created without sources (None, omitted, the empty set) listens to no step at all
+               h == Append(hist, [src |-> IF e.listens THEN e.src ELSE "other", items |-> e.items])
            IN /\ hist' = h
               /\ verdict' = IF e.ev = "Feed" THEN "ok"          \* fed to the tracker, its state not observed here
                             ELSE IF ~e.keptuser THEN "tracker_hands_out_the_optimizer_domain_result"
